@@ -157,9 +157,9 @@ func (r *readCommand) read(ctx context.Context, ltx lcontext.LContext,
 	// Only give back the slot once we really own one.
 	vhook.Point("srv.lim.acq", vhook.ID(r.server), r.mode.String(), path)
 	defer func() {
+		vhook.Point("srv.lim.rel", vhook.ID(r.server), r.mode.String(), path)
 		select {
 		case <-limiter:
-			vhook.Point("srv.lim.rel", vhook.ID(r.server), r.mode.String(), path)
 		default:
 		}
 	}()
